@@ -30,6 +30,11 @@ META = {
             "text": "Liveness and credit conservation are checked by TLC on the model (including non-multiple-of-4 buffers); on the real code a pending "
                     "operation at quiescence, a pool/ledger mismatch or progress-free frames are violations.",
             "note": _chmux_note},
+    "C06": {"technique": "TLA+ timed fail-stop model (ChmuxFault) + fault enumeration on the real code with TLC trace validation",
+            "text": "TLC checks on a clocked model that every fault kind makes both dispatchers fail within a bound and that a healthy idle "
+                    "connection is never torn down; the real code is run once per fault kind x direction x frame index under a virtual clock "
+                    "and every recorded run is validated (nothing pending after the timeout, later calls fail, prefix preserved).",
+            "note": _chmux_note},
     "C07": {"technique": "TLA+ lifecycle model (ChmuxLife, safety + liveness) + TLC trace validation of lifecycle scenarios",
             "text": "TLC explores every drop order / helper-task schedule of one open-request lifecycle incl. Goodbye exchange; recorded teardown "
                     "scenarios must end with both dispatchers Ok, all port numbers reclaimed and no task left.",
